@@ -50,7 +50,7 @@ def regexes(built, meta):
 def cases(tier):
   for style in ('plain', 'semi', 'colon'):
     for a in OPS:
-      for b in (OPS if tier == 'thorough' else OPS[:3]):
+      for b in OPS:
         ops, targets = chain(a, b)
         yield {'ir': {'subgraphs': [{'ops': ops, 'exports': []}],
                       'names': style}, 'targets': targets}
